@@ -37,4 +37,8 @@ EXPLANATION = 'fee_growth_outside bookkeeping lemmas: growth counts iff in range
 
 
 def run(ctx):
+    # Engine M complement (props/mextra.py): the swap loop's crossing/fee/reward wiring (Floyd verification shared with C03) and, where relevant, the payout handlers and leaf kernels
+    from props import mextra
+    ctx.mir()
+    ctx.parallel(mextra.c07_tasks(), max_procs=6)
     ctx.run_kani(['c07.rs'])
